@@ -88,8 +88,8 @@ def _plan(draw, max_len, narrow=True):
         args["index"] = draw(st.one_of(st.integers(-n - 2, n + 2), st.sampled_from(edges)))
     if h == "quantile":
         args["q"] = draw(st.sampled_from([0, 0.1, 0.25, 0.5, 0.9, 1]))
-    if h in ("std", "var") and draw(st.integers(0, 3)) == 0:
-        args["ddof"] = draw(st.sampled_from([0, 1]))
+    if h in ("std", "var") and draw(st.integers(0, 2)) == 0:
+        args["ddof"] = draw(st.sampled_from([0, 1, 1, 2, 3]))      # the differential is defined for every ddof
     # further helpers on the same column as later summaries of the same aggregate call
     extra = draw(st.lists(st.sampled_from(["first", "last", "nth1", "count", "min", "max", "count_unique_dropna"]),
                           max_size=2, unique=True))
@@ -350,6 +350,11 @@ def extra_leg(tier, seed_base, ctx, known_names, work):
     # a two-process split sharing the cache, and the same with the cache switched off
     plans.append({"steps": [["max", "f"], ["last", "f"]], "cache": True, "split": 1})
     plans.append({"steps": [["min", "d"], ["mode", "d"]], "cache": False, "split": 0})
+    # every kernel family as the very first accelerated use on a NaN-bearing float column, followed by helpers whose
+    # result depends on missing values being dropped (a flag leaking from the first compilation into shared callees)
+    for firsth in ["mode", "first", "min", "count_unique", "quantile", "sum"]:
+        plans.append({"steps": [[firsth, "f"], ["mean", "f"], ["max", "f"], ["count_unique", "f"]], "cache": True, "split": 0})
+    plans.append({"steps": [["mode", "d"], ["min", "d"], ["count_unique", "d"]], "cache": True, "split": 1})
     # several helpers as summaries of one aggregate call ("in the same call")
     plans.append({"steps": [["max", "f"], ["first", "f"], ["mode", "f"]], "cache": True, "split": 0, "same_call": True})
     plans.append({"steps": [["min", "t"], ["nth", "t"], ["count_unique", "t"]], "cache": True, "split": 0, "same_call": True})
